@@ -44,12 +44,6 @@ def coerce_max_errors(max_errors):
     return max_errors
 
 
-def thread(fn):
-    t = threading.Thread(target=fn)
-    t.start()
-    return t
-
-
 DONE = object()
 
 
@@ -64,7 +58,7 @@ def worker_thread(queue, process_item):
             finally:
                 queue.task_done()
 
-    return thread(process_items)
+    return threading.Thread(target=process_items)
 
 
 @contextmanager
@@ -73,7 +67,11 @@ def worker_pool(queue, process_item, worker_count, shutdown):
     try:
         try:
             for _ in range(worker_count):
-                workers.append(worker_thread(queue, process_item))
+                worker = worker_thread(queue, process_item)
+                # Recorded before it is started: start() can be interrupted after
+                # the thread has been created, and that thread must be joined too.
+                workers.append(worker)
+                worker.start()
             yield
         finally:
             # Also reached when starting the workers is interrupted: the workers
@@ -81,7 +79,9 @@ def worker_pool(queue, process_item, worker_count, shutdown):
             shutdown()
     finally:
         for worker in workers:
-            worker.join()
+            # A worker whose start() failed may never have been started.
+            if worker.is_alive():
+                worker.join()
 
 
 class PreparedNodes(NamedTuple):
